@@ -451,6 +451,14 @@ class Check:
             if bad:
                 viols.append(Violation(PROP, "C17.A.crash", ["C17.A", "abnormal_end:" + bad, fkind, shape], {"query": q, "faults": case["faults"], "outcome": res.summary()}))
                 return viols
+            def must_enter(p_):
+                for r_ in roots:
+                    if p_ == r_["top"]:
+                        return True
+                    if p_.startswith(r_["top"] + "/"):
+                        lvl_ = p_[len(r_["top"]) + 1:].count("/") + 1
+                        return r_["maxd"] == 0 or lvl_ < r_["maxd"]
+                return False
             failed, mid, mutated = set(), set(), set()
             stat_failed = False
             realpath_failed, opened_ok = set(), set()
@@ -467,7 +475,9 @@ class Check:
                         # an entry that cannot be stat'ed: if it is a directory it cannot be entered either
                         if " inj:fail" in l:
                             stat_failed = True
-                            if p in nm and nm[p]["type"] == "dir":
+                            # ... if the walk had to enter it at all (a directory on the last level of the window is only listed;
+                            # a walker may still look at its type, e.g. to sort entries, and ignore a failure there)
+                            if p in nm and nm[p]["type"] == "dir" and must_enter(p):
                                 failed.add(p)
                     elif m.group(1) == "realpath":
                         realpath_failed.add(p)
